@@ -172,6 +172,14 @@ pub trait JobT: Send + Sync {
     fn decode_bytes(&self, _data: &[u8]) -> Option<Value> {
         None
     }
+    /// encode an input (as stored in replay files) into fuzzer bytes
+    fn encode_input(&self, _input: &Value) -> Option<Vec<u8>> {
+        None
+    }
+    /// proptest-generated inputs, encoded as fuzzer bytes (corpus seeds)
+    fn sample_encoded(&self, _seed: u64, _n: usize) -> Vec<Vec<u8>> {
+        Vec::new()
+    }
     /// run one fuzzer input; None if the job cannot decode bytes
     fn fuzz(&self, _data: &[u8]) -> Option<Result<(), Fail>> {
         None
@@ -191,6 +199,8 @@ pub struct PJob<T> {
     pub floors: Vec<(String, f64)>,
     /// fuzzer bytes -> input (coverage-guided fuzzing drives the same case function)
     pub decode: Option<Arc<dyn Fn(&[u8]) -> Option<T> + Send + Sync>>,
+    /// input -> fuzzer bytes (inverse of `decode`)
+    pub encode: Option<Arc<dyn Fn(&T) -> Vec<u8> + Send + Sync>>,
 }
 
 fn run_case<T>(f: &CaseFn<T>, t: &T, stats: &mut Stats) -> Result<(), Fail> {
@@ -217,7 +227,8 @@ impl<T: Clone + std::fmt::Debug + Hash + Serialize + DeserializeOwned + Send + S
             failure_persistence: None,
             rng_seed: RngSeed::Fixed(mix(seed, &self.label, shard)),
             max_shrink_iters: 20_000,
-            max_shrink_time: 0,
+            // bound shrinking: a violation must be reported well inside the wrapper's time limit
+            max_shrink_time: 30_000,
             verbose: 0,
             max_global_rejects: 1,
             ..Config::default()
@@ -332,6 +343,19 @@ impl<T: Clone + std::fmt::Debug + Hash + Serialize + DeserializeOwned + Send + S
         let t = d(data)?;
         serde_json::to_value(&t).ok()
     }
+    fn encode_input(&self, input: &Value) -> Option<Vec<u8>> {
+        let e = self.encode.as_ref()?;
+        let t: T = serde_json::from_value(input.clone()).ok()?;
+        Some(e(&t))
+    }
+    fn sample_encoded(&self, seed: u64, n: usize) -> Vec<Vec<u8>> {
+        use proptest::strategy::ValueTree;
+        let Some(e) = self.encode.as_ref() else { return Vec::new() };
+        let cfg = Config { cases: 1, failure_persistence: None, rng_seed: RngSeed::Fixed(mix(seed, &self.label, 999)), ..Config::default() };
+        let mut runner = TestRunner::new(cfg);
+        let strategy = (self.strategy)();
+        (0..n).filter_map(|_| strategy.new_tree(&mut runner).ok().map(|t| e(&t.current()))).collect()
+    }
     fn fuzz(&self, data: &[u8]) -> Option<Result<(), Fail>> {
         let d = self.decode.as_ref()?;
         let t = d(data)?;
@@ -430,12 +454,16 @@ pub fn job<T: Clone + std::fmt::Debug + Hash + Serialize + DeserializeOwned + Se
     strategy: impl Fn() -> BoxedStrategy<T> + Send + Sync + 'static,
     f: impl Fn(&T, &mut Stats) -> Result<(), Fail> + Send + Sync + 'static,
 ) -> PJob<T> {
-    PJob { label: label.into(), cases_quick: quick, cases_thorough: thorough, strategy: Arc::new(strategy), f: Arc::new(f), floors: Vec::new(), decode: None }
+    PJob { label: label.into(), cases_quick: quick, cases_thorough: thorough, strategy: Arc::new(strategy), f: Arc::new(f), floors: Vec::new(), decode: None, encode: None }
 }
 
 impl<T> PJob<T> {
     pub fn decoder(mut self, d: impl Fn(&[u8]) -> Option<T> + Send + Sync + 'static) -> Self {
         self.decode = Some(Arc::new(d));
+        self
+    }
+    pub fn encoder(mut self, e: impl Fn(&T) -> Vec<u8> + Send + Sync + 'static) -> Self {
+        self.encode = Some(Arc::new(e));
         self
     }
     pub fn floor(mut self, class: &str, frac: f64) -> Self {
@@ -724,4 +752,38 @@ pub fn fuzz_artifact(p: &Property, path: &str, verif_dir: &str) -> i32 {
             1
         }
     }
+}
+
+/// write corpus seeds for the fuzz target of property `p`: the known-finding replays of its jobs and `n` proptest-generated
+/// inputs per job, each prefixed with the job-selector byte
+pub fn emit_corpus(p: &Property, dir: &str, seed: u64, n: usize, verif_dir: &str) -> usize {
+    std::fs::create_dir_all(dir).ok();
+    let js = fuzz_jobs(p);
+    let mut count = 0usize;
+    let mut write = |bytes: Vec<u8>, count: &mut usize| {
+        if bytes.len() > 4 {
+            std::fs::write(format!("{dir}/seed-{:04}", *count), bytes).ok();
+            *count += 1;
+        }
+    };
+    let known: Vec<KnownFinding> = std::fs::read_to_string(format!("{verif_dir}/known_findings.json")).ok().and_then(|t| serde_json::from_str(&t).ok()).unwrap_or_default();
+    for (ji, j) in js.iter().enumerate() {
+        for k in known.iter().filter(|k| k.property == p.id && !k.replay.is_empty()) {
+            if let Ok(text) = std::fs::read_to_string(format!("{verif_dir}/{}", k.replay)) {
+                if let Ok(v) = serde_json::from_str::<Value>(&text) {
+                    if v["job"].as_str() == Some(&j.label()) {
+                        if let Some(mut b) = j.encode_input(&v["input"]) {
+                            b.insert(0, ji as u8);
+                            write(b, &mut count);
+                        }
+                    }
+                }
+            }
+        }
+        for mut b in j.sample_encoded(seed, n) {
+            b.insert(0, ji as u8);
+            write(b, &mut count);
+        }
+    }
+    count
 }
